@@ -79,6 +79,9 @@ def tokMatch (spec impl : String) : Bool :=
     let is := impl.splitOn ","
     ss.length = is.length ∧ (ss.zip is).all fun (s, i) =>
       s = i ∨ (s.endsWith wild ∧ i.startsWith ((s.dropEnd wild.length).toString)) ∨ (s = "s" ++ hx "?" ∧ i.startsWith "s")
+        ∨ (s.startsWith ("s" ++ optPosMarker) ∧
+            (let r := (s.drop (1 + optPosMarker.length)).toString
+             i = "s" ++ r ∨ (i.startsWith ("s" ++ hx "<string>:") ∧ i.endsWith (hx ": " ++ r))))
 
 def compareOutcome (spec impl : List String) : Option String :=
   let rec go (i : Nat) : List String → List String → Option String
